@@ -5,6 +5,7 @@ pub mod c04;
 pub mod c05;
 pub mod c06;
 pub mod c07;
+pub mod c08;
 pub mod c09;
 pub mod c13;
 pub mod c16;
@@ -24,6 +25,7 @@ pub fn variants(prop: &str) -> Vec<&'static Variant> {
         "C05" => c05::variants(),
         "C06" => c06::variants(),
         "C07" => c07::variants(),
+        "C08" => c08::variants(),
         "C09" => c09::variants(),
         "C13" => c13::variants(),
         "C16" => c16::variants(),
@@ -43,6 +45,7 @@ pub fn run(prop: &str, ctx: &Ctx) -> Option<i32> {
         "C05" => c05::run(ctx),
         "C06" => c06::run(ctx),
         "C07" => c07::run(ctx),
+        "C08" => c08::run(ctx),
         "C09" => c09::run(ctx),
         "C13" => c13::run(ctx),
         "C16" => c16::run(ctx),
